@@ -136,6 +136,65 @@ fn check_kind(kind: &Kind, pre_depth: usize, post_depth: usize) -> KindOut {
     out
 }
 
+/// Long histories: counters, generation stamps or caches narrower than usize only show after 2^8 or 2^16 resets.  One
+/// instance per sketcher kind (largest size of the tier) lives through c reset cycles for every c around 2^8 and 2^16, the first
+/// cycle streams the items the post-input will stream again, the others stream other items; then the usual comparison
+/// with a fresh instance.
+fn long_histories(kinds: &[Kind]) -> (u64, u64, Option<(String, usize, String)>) {
+    // the largest size of each sketcher type (more positions: a wrong occurrence count or stale register is visible)
+    let mut last: BTreeMap<String, &Kind> = BTreeMap::new();
+    for k in kinds {
+        last.insert(base_name(k), k);
+    }
+    let firsts: Vec<&Kind> = last.into_values().collect();
+    let counts: Vec<usize> = [1usize << 8, 1 << 16].iter().flat_map(|c| (c - 2)..=(c + 2)).collect();
+    let res: Vec<(u64, u64, Option<(String, usize, String)>)> = firsts
+        .par_iter()
+        .map(|kind| {
+            let batch = kind.min_batch > 1 || !kind.streaming_items;
+            let first: Vec<Op> = if batch { vec![Op::Slice(vec![1, 2, 1, 2])] } else { vec![Op::Item(1), Op::Item(2)] };
+            let filler: Op = if batch { Op::Slice(vec![7, 8, 9]) } else { Op::Item(7) };
+            let post: Vec<Op> = if batch {
+                vec![Op::Slice(vec![1, 2, 1])]
+            } else if kind.has_end {
+                vec![Op::Item(1), Op::Item(2), Op::End]
+            } else {
+                vec![Op::Item(1), Op::Item(2)]
+            };
+            let fresh = run_case(kind, &[], &post, None);
+            let mut ops = 0u64;
+            let mut bad = None;
+            for &c in &counts {
+                // c cycles in all: the first one, c-1 fillers; run_case adds the final reset
+                let mut pre: Vec<Op> = first.clone();
+                for _ in 1..c {
+                    if kind.has_reinit {
+                        pre.push(Op::Reinit);
+                    }
+                    pre.push(filler.clone());
+                }
+                ops += pre.len() as u64;
+                let obs = run_case(kind, &pre, &post, None);
+                if obs != fresh && bad.is_none() {
+                    bad = Some((kind.name.clone(), c, format!("after {} reset cycles: {:x?} ; fresh instance: {:x?}", c, obs.as_ref().map(|v| &v[..v.len().min(6)]), fresh.as_ref().map(|v| &v[..v.len().min(6)]))));
+                }
+            }
+            (counts.len() as u64, ops, bad)
+        })
+        .collect();
+    let mut n = 0;
+    let mut ops = 0;
+    let mut bad = None;
+    for (a, b, c) in res {
+        n += a;
+        ops += b;
+        if bad.is_none() {
+            bad = c;
+        }
+    }
+    (n, ops, bad)
+}
+
 fn ops_json(ops: &[Op]) -> Value {
     json!(ops
         .iter()
@@ -215,6 +274,12 @@ pub fn run(ctx: &Ctx) -> i32 {
         per_kind.push(json!({"sketcher": kind.name, "pre_histories": o.pre_histories, "post_inputs": o.post_inputs, "executions": o.execs,
             "distinct_fresh_results": o.distinct_fresh, "pre_histories_with_flag": o.flags}));
     }
+    let (long_n, long_ops, long_bad) = long_histories(&kinds);
+    tot_execs += long_n;
+    if let Some((name, c, what)) = long_bad {
+        ctx.violation(&format!("reset-long-history:{}", name.split(" m=").next().unwrap_or(&name)), &format!("{}: {}", name, what), json!({"kind": "long", "sketcher": name, "cycles": c}));
+    }
+    println!("C13 long histories: {} (sketcher, cycle count) cases, {} operations", long_n, long_ops);
     println!("C13 kinds={} executions={} distinct fresh results={} non-vacuity={:?}", kinds.len(), tot_execs, tot_distinct, flags_total);
     let coverage = json!({
         "states": tot_distinct,
@@ -230,6 +295,7 @@ pub fn run(ctx: &Ctx) -> i32 {
         "distinct_nontrivial": tot_distinct,
         "rule": "for every sketcher with reinit/reset (SuperMinHash f32/f64, SuperMinHash2 u32/u64, SetSketcher u8/u16/u32 incl. overflowing and clipping parameter sets, both densified sketchers f32/f64, ProbMinHash2) and ProbOrdMinHash2's self-clearing hash_set, sizes {1,3,16} (+2,7,64): ALL pre-histories up to depth 3 (4) over {3 items, burst of 12, slice, empty slice (error path), end_sketch, merge, reinit} x ALL post-inputs of depth 1..2 (3): observation (all views, cardinal stats, overflow count, registers) after the reset must be bit-identical to a fresh instance fed the post-input; distinct = distinct fresh results",
         "sketcher_kinds": kinds.len(),
+        "long_histories": {"cases": long_n, "operations": long_ops, "what": "per sketcher kind (largest size of the tier): c reset cycles for every c in 254..=258 and 65534..=65538 (first cycle streams items 1,2; the others stream other items), then reset and the post-input {1,2}: equal to a fresh instance"},
         "pre_depth": pre_depth,
         "post_depth": post_depth,
         "non_vacuity_pre_histories_with_state": flags_total,
@@ -240,7 +306,7 @@ pub fn run(ctx: &Ctx) -> i32 {
         coverage,
         vec![
             "the observation covers every public view plus the ProbMinHash registers (hook H2); hidden state that never influences a later view is not observed".into(),
-            "histories deeper than the bound behave like those explored (bursts of 12 items drive the counters into their interesting regions inside the bound)".into(),
+            "histories deeper than the bound behave like those explored (bursts of 12 items drive the counters into their interesting regions inside the bound); beyond it only the one-shape long histories of 2^8 and 2^16 reset cycles are run".into(),
         ],
     )
 }
@@ -249,6 +315,10 @@ pub fn replay(_ctx: &Ctx, case: &Value) -> Result<(bool, String), String> {
     let name = case["sketcher"].as_str().ok_or("sketcher")?;
     let kinds = catalogue(&sizes(false), true);
     let kind = kinds.iter().find(|k| k.name == name).ok_or("unknown sketcher kind")?;
+    if case["kind"].as_str() == Some("long") {
+        let (_, _, bad) = long_histories(std::slice::from_ref(kind));
+        return Ok((bad.is_some(), format!("{:?}", bad)));
+    }
     let pre = ops_from_json(&case["pre"])?;
     let post = ops_from_json(&case["post"])?;
     let a = run_case(kind, &pre, &post, None);
